@@ -57,6 +57,8 @@ struct Cfg {
   std::vector<AnsDef> answers;
   long maxNodes = 600000;
   bool escQQ = false;
+  bool enhLongForm = false;  // enhanced: symbols < 0x80 also as RECEIVED frames
+  uint8_t enhFeatures = 0;   // feature bits the simulated adapter reports in RESETTED
   bool autoPoll = true;    // a waiter takes its finished request at the end of the step that finished it
 };
 static Cfg C;
@@ -84,6 +86,7 @@ static void parseArg(const std::string& a) {
   else if (k == "keyseen") C.keySeen = b(); else if (k == "reconnect") C.reconnect = b(); else if (k == "maxnodes") C.maxNodes = atol(v.c_str());
   else if (k == "escqq") C.escQQ = b();
   else if (k == "autopoll") C.autoPoll = b();
+  else if (k == "enhlong") C.enhLongForm = b(); else if (k == "enhfeat") C.enhFeatures = (uint8_t)atoi(v.c_str());
   else if (k == "events") g_mask = "," + v + ",";
   else if (k == "req") {  // req=<kind>:<hex master without crc>[:restarts]
     ReqDef r; r.kind = v[0] - '0'; size_t q = v.find(':', 2);
@@ -184,15 +187,52 @@ struct FakeTransport : public Transport {
     if (m_listener) m_listener->notifyTransportStatus(false);
   }
   bool isValid() override { return valid; }
-  void wire(uint8_t s, uint8_t o) { buf.push_back(s); org.push_back(o); g_trk.advance(s); }
+  // enhanced mode: the transport is an adapter simulator speaking the enhanced protocol (whole frames per chunk;
+  // splitting inside frames is C14's subject).  armed = master address the adapter shall arbitrate with, or SYN.
+  uint8_t armed = SYN;
+  void frame(uint8_t cmd, uint8_t d, uint8_t o) { buf.push_back((uint8_t)(0xC0 | (cmd << 2) | (d >> 6))); org.push_back(0); buf.push_back((uint8_t)(0x80 | (d & 0x3f))); org.push_back(o); }
+  void wire(uint8_t s, uint8_t o) {
+    g_trk.advance(s);
+    if (!C.enhanced) { buf.push_back(s); org.push_back(o); return; }
+    if (s < 0x80 && !C.enhLongForm) { buf.push_back(s); org.push_back(o); } else frame(1 /*RECEIVED*/, s, o);
+  }
+  std::string decideEcho(uint8_t w) {
+    std::string e = "s";
+    if (g_in && !g_in->usedEcho) { g_in->usedEcho = true; g_in->echoW.assign(1, w); g_in->echoT = g_trk; e = g_in->echo; }
+    return e;
+  }
+  // a SYN from the bus reached the adapter while it is armed: it arbitrates on behalf of ebusd
+  void adapterArbitrate() {
+    uint8_t a = armed; armed = SYN;
+    std::string e = decideEcho(a);
+    if (e == "s") { g_trk.advance(a); frame(2 /*STARTED*/, a, a); }
+    else if (e[0] == 'x') { uint8_t w = (uint8_t)strtoul(e.c_str() + 1, nullptr, 16); g_trk.advance(w); frame(0xa /*FAILED*/, w, a); }
+    // "n": the adapter stays silent (ebusd gives up after three SYN)
+  }
   result_t write(const uint8_t* data, size_t len) override {
     if (!valid) return RESULT_ERR_DEVICE;
     if (g_in && C.writeErr) { g_in->usedW = true; if (g_in->wfail) { ev("[\"err\",\"write\"]"); return RESULT_ERR_DEVICE; } }
+    if (C.enhanced) {
+      for (size_t i = 0; i + 1 < len; i += 2) {
+        uint8_t b0 = data[i], b1 = data[i + 1];
+        char b[64];
+        if ((b0 & 0xc0) != 0xc0 || (b1 & 0xc0) != 0x80) { snprintf(b, sizeof b, "[\"bad\",\"malformed-adapter-request\",%u]", b0 * 256 + b1); ev(b); continue; }
+        uint8_t cmd = (b0 >> 2) & 0xf, d = (uint8_t)(((b0 & 3) << 6) | (b1 & 0x3f));
+        if (cmd == 0) { ev("[\"enhreq\",\"init\"]"); frame(0 /*RESETTED*/, C.enhFeatures, 0); }
+        else if (cmd == 1) {
+          snprintf(b, sizeof b, "[\"tx\",%u]", d); ev(b);
+          std::string e = decideEcho(d);
+          if (e == "s") wire(d, 1); else if (e[0] == 'x') wire((uint8_t)strtoul(e.c_str() + 1, nullptr, 16), 1);
+        } else if (cmd == 2) { snprintf(b, sizeof b, "[\"enhreq\",\"start\",%u]", d); ev(b); armed = d; }
+        else if (cmd == 3) { snprintf(b, sizeof b, "[\"enhreq\",\"info\",%u]", d); ev(b); }
+        else { snprintf(b, sizeof b, "[\"bad\",\"unknown-adapter-request\",%u]", cmd); ev(b); }
+      }
+      return RESULT_OK;
+    }
     for (size_t i = 0; i < len; i++) {
       uint8_t w = data[i];
       char b[32]; snprintf(b, sizeof b, "[\"tx\",%u]", w); ev(b);
-      std::string e = "s";
-      if (g_in) { if (!g_in->usedEcho) { g_in->usedEcho = true; g_in->echoW.assign(1, w); g_in->echoT = g_trk; e = g_in->echo; } }
+      std::string e = decideEcho(w);
       if (e == "s") wire(w, 1);
       else if (e[0] == 'x') wire((uint8_t)strtoul(e.c_str() + 1, nullptr, 16), 1);
       // "n": the byte never shows up
@@ -212,14 +252,29 @@ struct FakeTransport : public Transport {
         return RESULT_ERR_TIMEOUT;
       }
       if (d == "er") { ev("[\"err\",\"read\"]"); g_trk.silence(); close(); return RESULT_ERR_DEVICE; }
-      for (size_t i = 0; i + 1 < d.size(); i += 2) wire((uint8_t)strtoul(d.substr(i, 2).c_str(), nullptr, 16), 0);
+      for (size_t i = 0; i + 1 < d.size(); i += 2) {
+        uint8_t sy = (uint8_t)strtoul(d.substr(i, 2).c_str(), nullptr, 16);
+        wire(sy, 0);
+        if (C.enhanced && sy == SYN && armed != SYN) adapterArbitrate();
+      }
     }
     *data = buf.data(); *len = buf.size();
     return RESULT_OK;
   }
   void readConsumed(size_t n) override {
-    for (size_t i = 0; i < n && i < buf.size(); i++) { char b[32]; snprintf(b, sizeof b, "[\"rx\",%u,%u]", buf[i], org[i]); ev(b); }
     if (n > buf.size()) n = buf.size();
+    char b[64];
+    for (size_t i = 0; i < n; i++) {
+      uint8_t x = buf[i];
+      if (!C.enhanced || x < 0x80) { snprintf(b, sizeof b, "[\"rx\",%u,%u]", x, org[i]); ev(b); continue; }
+      if ((x & 0xc0) == 0xc0 && i + 1 < n && (buf[i + 1] & 0xc0) == 0x80) {
+        uint8_t cmd = (x >> 2) & 0xf, d = (uint8_t)(((x & 3) << 6) | (buf[i + 1] & 0x3f)), o = org[i + 1];
+        if (cmd == 1) { snprintf(b, sizeof b, "[\"rx\",%u,%u]", d, o); ev(b); }
+        else if (cmd == 2 || cmd == 0xa) { snprintf(b, sizeof b, "[\"tx\",%u]", o); ev(b); snprintf(b, sizeof b, "[\"rx\",%u,1]", d); ev(b); }  // the adapter wrote o, the wire showed d
+        else if (cmd == 0) { snprintf(b, sizeof b, "[\"enh\",\"resetted\",%u]", d); ev(b); }
+        i++;
+      } else { snprintf(b, sizeof b, "[\"bad\",\"partial-frame-consumed\",%u]", x); ev(b); }
+    }
     buf.erase(buf.begin(), buf.begin() + n); org.erase(org.begin(), org.begin() + n);
   }
 };
@@ -239,7 +294,7 @@ struct VReq : public BusRequest {
   std::vector<uint8_t> slave() const { return std::vector<uint8_t>(slaveBuf, slaveBuf + slaveLen); }
   void setSlave(const uint8_t* d, size_t n) { slaveLen = (uint8_t)std::min<size_t>(n, sizeof slaveBuf); memcpy(slaveBuf, d, slaveLen); }
   bool notify(result_t res, const SlaveSymbolString& sl) override {
-    bool restart = kind == 2 && restartsLeft > 0;
+    bool restart = kind == 2 && restartsLeft > 0 && res == RESULT_OK;  // like PollRequest/ScanRequest: next part only after success
     if (restart) restartsLeft--;
     char b[64]; snprintf(b, sizeof b, "[\"ntf\",%d,%d,", idx, (int)res); ev(std::string(b) + jb(sl) + (restart ? ",1," : ",0,") + std::to_string(status) + "]");
     result = res; setSlave(sl.data(), sl.size());
@@ -281,7 +336,7 @@ struct Snap {
   int arbMaster, arbCheck;
   int enhResetAge, enhResetRequested, enhFeatures, enhInfoLen, enhInfoPos; std::vector<uint8_t> enhInfoBuf;
   // transport + env
-  std::vector<uint8_t> buf, org; int valid;
+  std::vector<uint8_t> buf, org; int valid, armed;
   Tracker trk;
   std::string key() const;
   std::string json() const;
@@ -329,7 +384,7 @@ struct VerifAccess {
       s->enhResetAge = e->m_resetTime == 0 ? 2 : (e->m_resetTime + 3 >= g_sec ? 0 : 1); s->enhResetRequested = e->m_resetRequested; s->enhFeatures = e->m_extraFeatures;
       s->enhInfoLen = (int)e->m_infoLen; s->enhInfoPos = (int)e->m_infoPos;
       if (e->m_infoLen) s->enhInfoBuf.assign(e->m_infoBuf, e->m_infoBuf + std::min<size_t>(e->m_infoPos, sizeof(e->m_infoBuf))); }
-    s->buf = t->buf; s->org = t->org; s->valid = t->valid; s->trk = g_trk;
+    s->buf = t->buf; s->org = t->org; s->valid = t->valid; s->armed = t->armed; s->trk = g_trk;
   }
   static void restore(DirectProtocolHandler* h, BaseDevice* d, FakeTransport* t, const Snap& s) {
     g_sec = 200000; g_ms = 5000000;
@@ -357,7 +412,7 @@ struct VerifAccess {
       e->m_resetTime = s.enhResetAge == 2 ? 0 : (s.enhResetAge == 0 ? g_sec : g_sec - 10); e->m_resetRequested = s.enhResetRequested; e->m_extraFeatures = (symbol_t)s.enhFeatures;
       e->m_infoLen = (size_t)s.enhInfoLen; e->m_infoPos = (size_t)s.enhInfoPos; for (size_t i = 0; i < s.enhInfoBuf.size(); i++) e->m_infoBuf[i] = s.enhInfoBuf[i];
       e->m_infoReqTime = g_sec; }
-    t->buf = s.buf; t->org = s.org; t->valid = s.valid; g_trk = s.trk;
+    t->buf = s.buf; t->org = s.org; t->valid = s.valid; t->armed = (uint8_t)s.armed; g_trk = s.trk;
   }
   static bool pollFinished(ProtocolHandler* h, BusRequest* r) { return h->m_finishedRequests.remove(r, false); }
   static void reconnect(ProtocolHandler* h) { h->reconnect(); }
@@ -369,7 +424,7 @@ static void kvi(std::string* k, const std::vector<int>& v) { k->push_back((char)
 std::string Snap::key() const {
   std::string k;
   int f[] = {state, escape, crc, crcValid, repeat, nextSendPos, cur, answering, remainLock, lockCount, genSyn, lstate, conflict, age, reconnect,
-             arbMaster, arbCheck, enhResetAge, enhResetRequested, enhFeatures, enhInfoLen, enhInfoPos, valid};
+             arbMaster, arbCheck, enhResetAge, enhResetRequested, enhFeatures, enhInfoLen, enhInfoPos, valid, armed};
   for (int x : f) { k.push_back((char)(x & 0xff)); k.push_back((char)((x >> 8) & 0xff)); }
   kv(&k, command); kv(&k, response); kv(&k, buf); kv(&k, org); kv(&k, enhInfoBuf);
   if (C.keySeen) { kv(&k, seen); k.push_back((char)masterCount); }
@@ -474,14 +529,14 @@ static void delivChoices(const Tracker& t, std::vector<std::string>* o) {
   bool idle = t.ph == P_DEAD || t.ph == P_QQ || t.ph == P_DONE;
   if (C.longTo && (idle || C.longToAnywhere)) o->push_back("tl");
   if (C.readErr) o->push_back("er");
-  if (t.esc) { addU(o, "00"); addU(o, "01"); addU(o, h2(C.junk[0])); return; }
+  if (t.esc) { addU(o, "00"); addU(o, "01"); addU(o, h2(C.junk[0])); addU(o, "aa"); return; }
   switch (t.ph) {
     case P_DEAD: case P_DONE: addU(o, "aa"); for (uint8_t j : C.junk) addU(o, h2(j)); break;
     case P_QQ: addU(o, "aa"); for (uint8_t q : C.qqs) addU(o, h2(q)); if (C.escQQ) addU(o, "a9"); break;
     case P_ZZ: for (uint8_t z : C.zzs) addU(o, h2(z)); addU(o, "aa"); break;
     case P_PB: for (uint8_t z : C.pbs) addU(o, h2(z)); addU(o, "aa"); break;
-    case P_SB: for (uint8_t z : C.sbs) addU(o, h2(z)); break;
-    case P_NN: for (int n = 0; n <= C.nnMax; n++) addU(o, h2((uint8_t)n)); break;
+    case P_SB: for (uint8_t z : C.sbs) addU(o, h2(z)); addU(o, "aa"); break;
+    case P_NN: for (int n = 0; n <= C.nnMax; n++) addU(o, h2((uint8_t)n)); addU(o, "aa"); break;
     case P_SNN: for (int n = 0; n <= C.snnMax; n++) addU(o, h2((uint8_t)n)); addU(o, "aa"); break;
     case P_DATA: case P_SDATA: for (uint8_t z : C.datas) addU(o, h2(z)); addU(o, "aa"); break;
     case P_CRC: case P_SCRC: {
